@@ -7,6 +7,10 @@ import (
 	"encoding/json"
 	"fmt"
 	"os"
+	"os/exec"
+	"path/filepath"
+	"strings"
+	"sync"
 
 	"verif/internal/checks"
 	"verif/internal/core"
@@ -34,11 +38,113 @@ func main() {
 	os.Exit(2)
 }
 
+// workersFor: the thorough tier explores with several worker processes, each with its own seed (derived from the base
+// seed), and merges their evidence; the quick tier and the workers themselves run in-process.
+func workersFor(prop, tier string) int {
+	if tier != "thorough" || os.Getenv("VERIF_WORKER") != "" {
+		return 1
+	}
+	if s := os.Getenv("VERIF_WORKERS"); s != "" {
+		var n int
+		fmt.Sscan(s, &n)
+		if n >= 1 {
+			return n
+		}
+	}
+	switch prop {
+	case "C20": // each run already occupies the cores with goroutines under the race detector
+		return 2
+	case "C13": // each worker compiles generated packages
+		return 4
+	}
+	return 8
+}
+
+func runWorkers(prop, tier string, n int) int {
+	base := core.NewCtx(prop, tier) // for the seed and the proof status
+	dir := filepath.Join(core.VerifDir(), "build", prop)
+	_ = os.MkdirAll(dir, 0o755)
+	type res struct {
+		code int
+		out  []byte
+	}
+	results := make([]res, n)
+	var wg sync.WaitGroup
+	self, err := os.Executable()
+	if err != nil {
+		self = os.Args[0]
+	}
+	for i := 0; i < n; i++ {
+		wg.Add(1)
+		go func(i int) {
+			defer wg.Done()
+			cmd := exec.Command(self, "run", prop, tier)
+			cmd.Env = append(os.Environ(), fmt.Sprintf("VERIF_WORKER=%d", i), fmt.Sprintf("VERIF_SEED=%d", base.Seed+uint64(i)*1000003),
+				"VERIF_EVIDENCE_OUT="+filepath.Join(dir, fmt.Sprintf("evidence.worker%d.json", i)))
+			cmd.Stderr = os.Stderr
+			out, err := cmd.Output()
+			code := 0
+			if err != nil {
+				code = 2
+				if ee, ok := err.(*exec.ExitError); ok {
+					code = ee.ExitCode()
+				}
+			}
+			results[i] = res{code, out}
+		}(i)
+	}
+	wg.Wait()
+	// relay: every VIOLATION block, each KNOWN-FINDING signature once
+	seenKnown := map[string]bool{}
+	worst := 0
+	for i, r := range results {
+		for _, l := range strings.Split(strings.TrimRight(string(r.out), "\n"), "\n") {
+			switch {
+			case strings.HasPrefix(l, "OK property="), l == "":
+			case strings.HasPrefix(l, "KNOWN-FINDING:"):
+				key := l
+				if j := strings.Index(l, "["); j >= 0 {
+					if k := strings.Index(l[j:], "]"); k >= 0 {
+						key = l[j : j+k]
+					}
+				}
+				if !seenKnown[key] {
+					seenKnown[key] = true
+					fmt.Println(l)
+				}
+			default:
+				fmt.Println(l)
+			}
+		}
+		if r.code == 1 && worst != 2 {
+			worst = 1
+		} else if r.code > 1 {
+			fmt.Fprintf(os.Stderr, "worker %d of %s exited with status %d\n", i, prop, r.code)
+			worst = 2
+		}
+	}
+	if err := core.MergeEvidence(prop, tier, base.Seed, n, dir); err != nil {
+		fmt.Fprintf(os.Stderr, "cannot merge evidence: %v\n", err)
+		return 2
+	}
+	if worst == 2 {
+		fmt.Printf("VIOLATION property=%s replay=%s no-failing-input-found\n", prop, writeInfra(base, fmt.Errorf("a worker process failed")))
+		return 1
+	}
+	if worst == 0 {
+		fmt.Printf("OK property=%s tier=%s seed=%d workers=%d\n", prop, tier, base.Seed, n)
+	}
+	return worst
+}
+
 func run(prop, tier string) int {
 	ch := core.Checks[prop]
 	if ch == nil {
 		fmt.Fprintf(os.Stderr, "no check registered for %s\n", prop)
 		return 2
+	}
+	if n := workersFor(prop, tier); n > 1 {
+		return runWorkers(prop, tier, n)
 	}
 	c := core.NewCtx(prop, tier)
 	if err := ch.Run(c); err != nil {
